@@ -45,12 +45,14 @@ OPEN_STATEMENTS = [
     'minimal rank) for all weight lists.',
     'active_space_sound (sector matrix elements) and agreement with freeze_orbitals: oracle only.  Proved: index arithmetic of '
     'spinorb_from_spatial (which blocks are filled, bijection with (p,q,r,s,sigma,tau)), trivial-partition identity.',
-    'RDM maps / chemist reordering as statements about expectation values and coefficient sums: oracle only.  Proved: the '
-    'term-level operator identities in any ring with the CAR (chemist_reorder_term, particle_hole_term, two_hole_term with '
-    'exactly the code\'s three correction terms, contraction_identity_term), that the pairs of maps are mutually inverse, and '
-    'that the contraction of the two-hole map agrees with eye - opdm.T for every (complex, non-symmetric) 1-RDM / 2-RDM pair '
-    'satisfying the trace and contraction conditions (one_hole_agrees_with_two_hole_contraction); '
-    'the linear step (summing with coefficients / taking <psi|.|psi>, N-hat = N on the sector) is not formalised.',
+    'Proved at operator level in any algebra with the CAR: chemist_reorder_identity (summed over all indices with arbitrary '
+    'coefficients), contraction_identity_summed (sum_r a+_p a+_r a_r a_q = a+_p a_q (N-hat - 1), = (N-1) a+_p a_q on an '
+    'N-particle vector), expectation_is_bilinear_pairing (phi(H) = c + sum D o1 + sum Gamma o2 for every linear functional), the '
+    'term identities behind the particle-hole and two-hole maps, inverse pairs, and agreement of the two routes to the 1-hole-RDM. '
+    'two_hole_map_correct / particle_hole_map_correct: the formulas of map_two_pdm_to_two_hole_dm / ..._particle_hole_dm hold for '
+    'the RDMs of every linear functional.  Not formalised: the identification of the Model entry functions over Gaussian '
+    'rationals with the K = Q(i) instance of these statements (same formulas, read side by side), and positivity / '
+    'N-representability of the inputs.',
 ]
 
 # ----------------------------------------------------------------------------- dense reference algebra
